@@ -389,6 +389,12 @@ impl Property for C04 {
         let mut sc = gen_c04(seed, idx, tier);
         clockify(&mut sc.spec, seed, "C04-clock", idx, 6);
         seq_named_like_command(&mut sc, seed, "C04-seqname", idx);
+        {
+            let mut xrng = Rng::new(scenario_seed(seed, "C04-scripts", idx));
+            if xrng.chance(1, 8) {
+                sc.spec.script_wrappers = xrng.range(1, 4) as u8;
+            }
+        }
         let mut v = to_val(&sc);
         // one run in four has a `log tail` listener attached: ordering must not depend on who is listening
         let mut rng = Rng::new(scenario_seed(seed, "C04l", idx));
@@ -510,7 +516,7 @@ fn gen_c16(seed: u64, idx: usize, tier: Tier) -> RunScenario {
             files.push((format!("{}/monorail/argmap/base.json", t.path), body.clone()));
         }
     }
-    let spec = WorldSpec { targets, cmd_files, files, sequences: vec![], max_retained_runs: 2, gitignore: vec![], git: true, lock_host: None, default_ports: 0, omit_max_retained: false, sha256_repo: false, clock_plan: vec![] };
+    let spec = WorldSpec { targets, cmd_files, files, sequences: vec![], max_retained_runs: 2, gitignore: vec![], git: true, lock_host: None, default_ports: 0, omit_max_retained: false, sha256_repo: false, clock_plan: vec![], script_wrappers: 0 };
     let opts = RunOpts { commands: cmds.iter().map(|s| s.to_string()).collect(), ..Default::default() };
     let mut script = RunScript::simple(opts);
     // one scenario in four: a few members of the wide layer exit the moment they have started, while monorail is
@@ -632,10 +638,24 @@ impl Property for C16 {
         }
     }
     fn generate(&self, seed: u64, idx: usize, tier: Tier) -> Value {
-        let mut v = to_val(&gen_c16(seed, idx, tier));
+        let mut sc16 = gen_c16(seed, idx, tier);
         // one scenario in four runs with a `log tail` listener attached (members then also stream to it)
         let mut rng = Rng::new(scenario_seed(seed, "C16l", idx));
-        v["with_listener"] = json!(rng.chance(1, 4));
+        let with_listener = rng.chance(1, 4);
+        {
+            // own generator: one world in five has every third command file as a shell script (four spellings of the
+            // interpreter line) instead of a binary; half of the listeners die while the members are being started
+            // (at the 1st-3rd spawn of the run): a group must start completely whoever stops listening
+            let mut xrng = Rng::new(scenario_seed(seed, "C16-scripts", idx));
+            if xrng.chance(1, 5) {
+                sc16.spec.script_wrappers = xrng.range(1, 4) as u8;
+            }
+            if with_listener && xrng.chance(1, 2) {
+                sc16.script.lfaults.push(crate::rundrv::LFault { at: crate::rundrv::LTrigger::AtPoint { name: "run.spawn".into(), nth: xrng.range(1, 3) }, action: crate::rundrv::LAction::Kill });
+            }
+        }
+        let mut v = to_val(&sc16);
+        v["with_listener"] = json!(with_listener);
         // one scenario in eight has a history: an earlier run of the same commands in which a few (not all) members
         // of the wide layer failed
         if v["with_listener"] != true && rng.chance(1, 8) {
@@ -1306,6 +1326,12 @@ impl Property for C06 {
         let mut sc = gen_c06(seed, idx, tier);
         clockify(&mut sc.spec, seed, "C06-clock", idx, 6);
         {
+            let mut xrng = Rng::new(scenario_seed(seed, "C06-scripts", idx));
+            if xrng.chance(1, 8) {
+                sc.spec.script_wrappers = xrng.range(1, 4) as u8;
+            }
+        }
+        {
             // one scenario in twelve: one command file has the x bit but cannot be executed (own generator)
             let mut brng = Rng::new(scenario_seed(seed, "C06-broken", idx));
             let cands: Vec<usize> = (0..sc.spec.cmd_files.len()).filter(|&i| sc.spec.cmd_files[i].exec && !sc.spec.cmd_files[i].command.ends_with("__decoy")).collect();
@@ -1435,7 +1461,7 @@ fn gen_c11_shared_cmd_dir(rng: &mut Rng) -> (RunScenario, C11Extra) {
         argmap_files.push((format!("{}/monorail/argmap/base.json", path), Value::Object(m).to_string()));
         targets.push(t);
     }
-    let spec = WorldSpec { targets, cmd_files, files: vec![], sequences: vec![], max_retained_runs: 2, gitignore: vec![], git: true, lock_host: None, default_ports: 0, omit_max_retained: false, sha256_repo: false, clock_plan: vec![] };
+    let spec = WorldSpec { targets, cmd_files, files: vec![], sequences: vec![], max_retained_runs: 2, gitignore: vec![], git: true, lock_host: None, default_ports: 0, omit_max_retained: false, sha256_repo: false, clock_plan: vec![], script_wrappers: 0 };
     let mut opts = RunOpts { commands: cmds.clone(), ..Default::default() };
     let mode = if rng.chance(1, 2) {
         let mut ts: Vec<String> = spec.targets.iter().map(|t| t.path.clone()).collect();
@@ -1581,7 +1607,7 @@ fn gen_c11(seed: u64, idx: usize, _tier: Tier) -> (RunScenario, C11Extra) {
     if rng.chance(2, 3) {
         rng.shuffle(&mut targets);
     }
-    let spec = WorldSpec { targets, cmd_files, files, sequences: vec![], max_retained_runs: 2, gitignore: vec![], git: true, lock_host: None, default_ports: 0, omit_max_retained: false, sha256_repo: false, clock_plan: vec![] };
+    let spec = WorldSpec { targets, cmd_files, files, sequences: vec![], max_retained_runs: 2, gitignore: vec![], git: true, lock_host: None, default_ports: 0, omit_max_retained: false, sha256_repo: false, clock_plan: vec![], script_wrappers: 0 };
     let mut opts = RunOpts::default();
     let k = rng.range(1, cmds.len());
     opts.commands = cmds[..k].to_vec();
